@@ -67,7 +67,11 @@ def check_launch(run, case, workdir, mode, idopt, attempt, subprocess_=False):
         viol("trace_file_damaged", p)
     # ---- exit code
     want_rc = 0 if first_fail is None else 4
-    if res["res"].rc != want_rc:
+    if first_fail is not None and case.get("fail_with") == "exit":
+        # the failing run calls sys.exit(9): which non-zero code the CLI ends with is not documented
+        if res["res"].rc in (0, None):
+            viol("exit_code_wrong", f"exit code {res['res'].rc} although run {first_fail} called sys.exit(9)")
+    elif res["res"].rc != want_rc:
         viol("exit_code_wrong", f"exit code {res['res'].rc}, expected {want_rc} ({'all runs completed' if first_fail is None else 'run %d fails' % first_fail})")
     # ---- bracket
     starts = [r for r in records if r.get("record_type") == "run_space_start"]
@@ -94,7 +98,12 @@ def check_launch(run, case, workdir, mode, idopt, attempt, subprocess_=False):
         completed = len(plan) if first_fail is None else first_fail
         if summ.get("planned_runs") != len(plan) or summ.get("completed_runs") != completed:
             viol("completed_count_untruthful", f"run_space_end summary {summ}, truth planned={len(plan)} completed={completed}")
-        if (first_fail is not None) != (summ.get("status") == "failed"):
+        if first_fail is not None and case.get("fail_with") == "exit":
+            # sys.exit() inside a run: the property asks for the closing record and truthful counts; the summary's status
+            # word for this kind of abort is not documented (absent on this tree) - only a claim of success would be untruthful
+            if summ.get("status") in ("ok", "completed", "success"):
+                viol("launch_status_untruthful", f"run_space_end status {summ.get('status')!r} although run {first_fail} called sys.exit(9)")
+        elif (first_fail is not None) != (summ.get("status") == "failed"):
             viol("launch_status_untruthful", f"run_space_end status {summ.get('status')!r}, first failing run {first_fail}")
         if ends[0].get("run_space_launch_id") != launch_id:
             viol("launch_id_not_shared", "run_space_end carries a different launch id")
@@ -316,8 +325,14 @@ def inputs_id_checks(run, scratch, rng):
     c = launch("c")
     open(src, "w").write(content.replace(str(rows[-1]), str(rows[-1] + 1.0)))  # content changed
     d = launch("d")
-    run.count("inputs_id_launches", 4)
-    w = {"a": a, "b": b, "c": c, "d": d}
+    os.makedirs(os.path.join(wd, "e"), exist_ok=True)
+    with open(src, "w", newline="") as fh:       # the ORIGINAL rows again, but with CR LF line endings: other bytes
+        fh.write(content.replace("\n", "\r\n"))
+    e = launch("e")
+    run.count("inputs_id_launches", 5)
+    w = {"a": a, "b": b, "c": c, "d": d, "e": e}
+    if a[0] is not None and e[0] == a[0]:
+        run.violation("inputs_id_unchanged_after_content_change", f"inputs id unchanged although the file's bytes changed (LF -> CR LF line endings): {w}", w)
     if a[0] is None:
         run.violation("inputs_id_absent_with_source_file", f"run_space_start carries no inputs id although a source file is referenced: {w}", w)
     else:
@@ -346,7 +361,7 @@ def run(run):
             n_runs = rng.randint(2, 6)
             fail_at = [None] + list(range(n_runs))
             fa = fail_at[li % len(fail_at)] if run.tier == "quick" else rng.choice(fail_at)
-            case = cli.launch_case(g, fail_at=fa, n_runs=n_runs)
+            case = cli.launch_case(g, fail_at=fa, n_runs=n_runs, fail_with=("exit" if (fa is not None and li % 3 == 1) else "boom"))
             if (li + run.shard[0]) % 2 == 0:
                 case["cli_context"] = {"cli_k": 1.5}      # a key supplied with --context (shared by every run of the launch)
             mode = ("file", "dir")[li % 2]
